@@ -31,3 +31,171 @@ Definition frequency (n : nat) (G : list qgen) (a : list Z) (b : Z) : ans freq_a
   | None => Ans NoFreq
   | Some L => lat_frequency (map inject_Z a) (inject_Z b) L
   end.
+
+(* ---------- specification ---------- *)
+Lemma closest_bounds c0 h : 0 < h ->
+  exists K : Z, closest c0 h == c0 - inject_Z K * h /\ - (h * (1 # 2)) <= closest c0 h /\ closest c0 h < h * (1 # 2).
+Proof.
+  intros Hh. unfold closest. set (y := c0 / h + (1 # 2)). exists (Qfloor y).
+  rewrite Qred_correct. split; [reflexivity|].
+  pose proof (Qfloor_le y) as L. pose proof (Qlt_floor y) as U.
+  rewrite inject_Z_plus in U. change (inject_Z 1) with 1 in U.
+  set (K := inject_Z (Qfloor y)) in *. clearbody K.
+  set (t := c0 / h) in *. assert (Et : c0 == t * h) by (unfold t; field; lra).
+  unfold y in *. clearbody t. rewrite Et.
+  assert (P1 : 0 <= (t + (1 # 2) - K) * h) by (apply Qmult_le_0_compat; lra).
+  assert (P2 : 0 < (K + 1 - (t + (1 # 2))) * h).
+  { apply Qmult_lt_0_compat; lra. }
+  assert (X1 : (t + (1 # 2) - K) * h == t * h - K * h + h * (1 # 2)) by field.
+  assert (X2 : (K + 1 - (t + (1 # 2))) * h == h * (1 # 2) - (t * h - K * h)) by field.
+  rewrite X1 in P1. rewrite X2 in P2.
+  set (z := t * h - K * h) in *. clearbody z. split; lra.
+Qed.
+
+Lemma closest_min v h (j : Z) : 0 < h -> - (h * (1 # 2)) <= v -> v < h * (1 # 2) ->
+  Qabs v <= Qabs (v + inject_Z j * h).
+Proof.
+  intros Hh L U.
+  assert (A : Qabs v <= h * (1 # 2)) by (apply Qabs_Qle_condition; lra).
+  destruct (Z_dec j 0) as [[Hj|Hj]|Hj].
+  - (* j <= -1 *)
+    assert (Hq : inject_Z j <= - (1)).
+    { change (- (1)) with (inject_Z (-1)). rewrite <- Zle_Qle. lia. }
+    assert (P : 0 <= (- (1) - inject_Z j) * h) by (apply Qmult_le_0_compat; lra).
+    assert (X : (- (1) - inject_Z j) * h == - h - inject_Z j * h) by ring. rewrite X in P.
+    eapply Qle_trans; [exact A|]. rewrite <- Qabs_opp.
+    eapply Qle_trans; [|apply Qle_Qabs]. clear X. set (z := inject_Z j * h) in *. clearbody z. lra.
+  - (* j >= 1 *)
+    assert (Hq : 1 <= inject_Z j).
+    { change 1 with (inject_Z 1). rewrite <- Zle_Qle. lia. }
+    assert (P : 0 <= (inject_Z j - 1) * h) by (apply Qmult_le_0_compat; lra).
+    assert (X : (inject_Z j - 1) * h == inject_Z j * h - h) by ring. rewrite X in P.
+    eapply Qle_trans; [exact A|]. eapply Qle_trans; [|apply Qle_Qabs].
+    clear X. set (z := inject_Z j * h) in *. clearbody z. lra.
+  - subst j. assert (E : v + inject_Z 0 * h == v) by (change (inject_Z 0) with 0; ring).
+    rewrite E. apply Qle_refl.
+Qed.
+
+Section FreqSpec.
+Variable a : list Q.
+Variable b : Q.
+Variable n : nat.
+Hypothesis Hlen : (length a <= n)%nat.
+Let f := fdot a.
+Let Lf : linfun f := fdot_linfun a.
+
+Theorem lat_frequency_none S : lat_frequency a b S = Ans NoFreq ->
+  forall q : Q, exists x, den n S x /\ dotf a x + b == q.
+Proof.
+  unfold lat_frequency. destruct (split_line a (lins S)) as [[l0 rest]|] eqn:Esl.
+  - intros _ q. destruct (split_line_some a _ _ _ Esl) as [Hl Hin]. fold f in Hl.
+    set (r := (q - f (pt S) - b) / f l0).
+    exists (vnth (vadd (pt S) (vadd vzero (vscale r l0)))). split.
+    + exists vzero, (vscale r l0). split; [constructor|]. split; [|apply peq_refl].
+      apply sp_scale; [exact I|]. apply sp_in. apply Hin. now left.
+    + rewrite (F_of_peq a n Hlen _ _ (peq_refl n _)). fold f.
+      rewrite !(lf_add _ Lf), (lf_zero _ Lf), (lf_scale _ Lf). unfold r. field. exact Hl.
+  - destruct (bfold a vzero [] (pars S)) as [[b0 orth]|]; [|discriminate].
+    destruct (Qeq_bool _ 0); discriminate.
+Qed.
+
+Theorem lat_frequency_some S fr v : lat_frequency a b S = Ans (Freq fr v) ->
+  0 <= fr /\
+  (forall x, den n S x -> exists k : Z, dotf a x + b == v + inject_Z k * fr) /\
+  (forall k : Z, exists x, den n S x /\ dotf a x + b == v + inject_Z k * fr) /\
+  (forall x, den n S x -> Qabs v <= Qabs (dotf a x + b)).
+Proof.
+  unfold lat_frequency. destruct (split_line a (lins S)) as [[l0 rest]|] eqn:Esl; [discriminate|].
+  pose proof (split_line_none a _ Esl) as Hlo. fold f in Hlo.
+  destruct (bfold a vzero [] (pars S)) as [[b0 orth]|] eqn:Ebf; [|discriminate].
+  destruct (bfold_spec a _ _ _ _ _ (fun o (H : In o []) => match H with end) Ebf) as [Horth Hsp].
+  fold f in Horth.
+  assert (Hpars : forall u, zspan (pars S) u <->
+            exists (k : Z) o, zspan orth o /\ veq u (vadd (vscale (inject_Z k) b0) o)).
+  { intros u. rewrite <- zspan_cons, <- Hsp. cbn [app]. symmetry. apply zspan_zero_cons. }
+  set (c0 := f (pt S) + b).
+  (* value of the expression on a member, and members with a prescribed coefficient *)
+  assert (Val : forall x, den n S x -> exists k : Z, dotf a x + b == c0 + inject_Z k * f b0).
+  { intros x [u [w [Hu [Hw Hx]]]]. apply Hpars in Hu. destruct Hu as [k [o [Ho Eu]]]. exists k.
+    rewrite (F_of_peq a n Hlen _ _ Hx). fold f. rewrite !(lf_add _ Lf), (lf_eq _ Lf _ _ Eu), (lf_add _ Lf), (lf_scale _ Lf).
+    rewrite (span_f0 _ _ _ _ Lf Horth Ho), (span_f0 _ _ _ _ Lf Hlo Hw). unfold c0. ring. }
+  assert (Mem : forall k : Z, exists x, den n S x /\ dotf a x + b == c0 + inject_Z k * f b0).
+  { intros k. exists (vnth (vadd (pt S) (vadd (vscale (inject_Z k) b0) vzero))). split.
+    - exists (vscale (inject_Z k) b0), vzero. split; [|split; [constructor|apply peq_refl]].
+      apply Hpars. exists k, vzero. split; [constructor|]. vpoint i. ring.
+    - rewrite (F_of_peq a n Hlen _ _ (peq_refl n _)). fold f.
+      rewrite !(lf_add _ Lf), (lf_scale _ Lf), (lf_zero _ Lf). unfold c0. ring. }
+  fold f. fold c0.
+  set (v1 := Qred c0). set (h1 := Qred (Qabs (f b0))). set (v2 := closest v1 h1).
+  assert (Ev1 : v1 == c0) by (unfold v1; apply Qred_correct).
+  assert (Eh1 : h1 == Qabs (f b0)) by (unfold h1; apply Qred_correct).
+  clearbody v1 h1.
+  destruct (Qeq_bool h1 0) eqn:Eh.
+  - apply Qeq_bool_iff in Eh. rewrite Eh1 in Eh.
+    assert (E0 : f b0 == 0).
+    { revert Eh. apply (Qabs_case (f b0) (fun y => y == 0 -> f b0 == 0)); intros; lra. }
+    intros [= <- <-]. split; [apply Qle_refl|]. split; [|split].
+    + intros x Hx. destruct (Val x Hx) as [k E]. exists 0%Z. rewrite E, E0, Ev1. ring.
+    + intros k. destruct (Mem 0%Z) as [x [Hx E]]. exists x. split; [exact Hx|]. rewrite E, E0, Ev1. ring.
+    + intros x Hx. destruct (Val x Hx) as [k E]. rewrite E, E0, Ev1.
+      assert (E1 : c0 + inject_Z k * 0 == c0) by ring. rewrite E1. apply Qle_refl.
+  - apply Qeq_bool_false in Eh. rewrite Eh1 in Eh.
+    intros [= <- <-].
+    set (h := Qabs (f b0)) in *.
+    assert (Hh : 0 < h).
+    { pose proof (Qabs_nonneg (f b0)) as P. fold h in P. destruct (Qle_lt_or_eq _ _ P) as [L|E]; [exact L|].
+      exfalso. apply Eh. symmetry. exact E. }
+    assert (Sg : exists sg : Z, (sg = 1 \/ sg = -1)%Z /\ f b0 == inject_Z sg * h).
+    { unfold h. apply (Qabs_case (f b0) (fun y => exists sg : Z, (sg = 1 \/ sg = -1)%Z /\ f b0 == inject_Z sg * y)); intros _.
+      - exists 1%Z. split; [now left|]. change (inject_Z 1) with 1. ring.
+      - exists (-1)%Z. split; [now right|]. change (inject_Z (-1)) with (- (1)). ring. }
+    destruct Sg as [sg [Hsg Esg]].
+    assert (Eq1 : h1 == h) by exact Eh1.
+    assert (Eq2 : v2 == closest c0 h).
+    { unfold v2, closest. rewrite !Qred_correct.
+      assert (E3 : v1 / h1 + (1 # 2) == c0 / h + (1 # 2)) by (rewrite Ev1, Eq1; reflexivity).
+      rewrite (Qfloor_comp _ _ E3), Ev1, Eq1. reflexivity. }
+    destruct (closest_bounds c0 h Hh) as [K [EK [LB UB]]].
+    split; [rewrite Eq1; apply Qlt_le_weak; exact Hh|]. split; [|split].
+    + intros x Hx. destruct (Val x Hx) as [k E]. exists (K + k * sg)%Z.
+      rewrite E, Eq1, Eq2, EK, Esg, inject_Z_plus, inject_Z_mult. ring.
+    + intros k. destruct (Mem ((k - K) * sg)%Z) as [x [Hx E]]. exists x. split; [exact Hx|].
+      rewrite E, Eq1, Eq2, EK, Esg, inject_Z_mult. unfold Zminus. rewrite inject_Z_plus, inject_Z_opp.
+      assert (S2 : inject_Z sg * inject_Z sg == 1).
+      { destruct Hsg as [-> | ->]; reflexivity. }
+      transitivity (c0 + (inject_Z k + - inject_Z K) * (inject_Z sg * inject_Z sg) * h); [ring|]. rewrite S2. ring.
+    + intros x Hx. destruct (Val x Hx) as [k E]. rewrite E, Eq2.
+      assert (E4 : c0 + inject_Z k * f b0 == closest c0 h + inject_Z (K + k * sg) * h).
+      { rewrite EK, Esg, inject_Z_plus, inject_Z_mult. ring. }
+      rewrite E4. apply closest_min; assumption.
+Qed.
+End FreqSpec.
+
+(* the query on generator systems with PPL's integer expressions  a.x + b *)
+Definition expr_val (a : list Z) (b : Z) (x : point) : Q := dotf (map inject_Z a) x + inject_Z b.
+
+Theorem frequency_undefined n G a b : frequency n G a b = Ans NoFreq ->
+  (forall x, ~ in_qgens n G x) \/ (forall q : Q, exists x, in_qgens n G x /\ expr_val a b x == q).
+Proof.
+  unfold frequency. destruct (Nat.leb_spec (length a) n) as [Hl|]; [|discriminate]. cbn [negb].
+  destruct (alat_of G) as [L|] eqn:E.
+  - intros H. right. intros q.
+    destruct (lat_frequency_none (map inject_Z a) (inject_Z b) n ltac:(rewrite map_length; exact Hl) L H q) as [x [Hx Ex]].
+    exists x. split; [now apply (alat_of_some n G L E)|exact Ex].
+  - intros _. left. intros x. exact (alat_of_none n G E x).
+Qed.
+
+Theorem frequency_defined n G a b fr v : frequency n G a b = Ans (Freq fr v) ->
+  0 <= fr /\
+  (forall x, in_qgens n G x -> exists k : Z, expr_val a b x == v + inject_Z k * fr) /\
+  (forall k : Z, exists x, in_qgens n G x /\ expr_val a b x == v + inject_Z k * fr) /\
+  (forall x, in_qgens n G x -> Qabs v <= Qabs (expr_val a b x)).
+Proof.
+  unfold frequency. destruct (Nat.leb_spec (length a) n) as [Hl|]; [|discriminate]. cbn [negb].
+  destruct (alat_of G) as [L|] eqn:E; [|discriminate]. intros H.
+  destruct (lat_frequency_some (map inject_Z a) (inject_Z b) n ltac:(rewrite map_length; exact Hl) L fr v H) as [H0 [H1 [H2 H3]]].
+  split; [exact H0|]. split; [|split].
+  - intros x Hx. apply H1. now apply (alat_of_some n G L E).
+  - intros k. destruct (H2 k) as [x [Hx Ex]]. exists x. split; [now apply (alat_of_some n G L E)|exact Ex].
+  - intros x Hx. apply H3. now apply (alat_of_some n G L E).
+Qed.
